@@ -17,3 +17,9 @@ def run(chk):
     chk.floor_count("C01.R6:deferred-update call sites", n, 7)
     backtest_rules.run_loop(chk, "C08")
     core_rules.refresh_before_trade(chk, "C08")
+    from .algo_equiv import check_equiv
+    from .c18 import REFS as REPORT_REFS
+    for mod, cls, name, src, what in REPORT_REFS:
+        if (cls, name) in (("StrategyBase", "positions"), ("StrategyBase", "outlays")):
+            # computed accessors: recomputed from the tree on every read (nothing cached across reads)
+            check_equiv(chk, "C18.R1", mod, cls, name, src, "report-formula", "%s.%s: %s" % (cls, name, what), no_inline=("update", "get_transactions"), limit=14)
